@@ -98,6 +98,10 @@ def run_case(rs, ctx):
     if name in ("partial_fit:singular_l2_zero", "fit:singular_l2_zero", "fit:singular_other_width") and cfg["lp"]["kind"] in ("lingreedy", "linucb"):
         cfg["lp"]["l2"], cfg["lp"]["scale"] = 0.0, False  # legal (validated as l2_lambda >= 0): no regularisation
         pos = "after_arm_change"
+    if name == "partial_fit:singular_huge_row":
+        pos = "after_arm_change"  # the newest arm has no data yet
+        if "scale" in cfg["lp"]:
+            cfg["lp"]["scale"] = False
     if name == "partial_fit:fewer_rows_than_clusters_first_call":
         pos = "before_fit"
     sh = gen.Shadow(cfg, nf)
